@@ -247,6 +247,11 @@ Inv_NoAckedLoss ==
   (wclosed /\ apc = "idle")
      => (dev # {} \/ \A c \in Clients : Recover(snap, file)[c] >= ackpre[c])
 
+\* the same without the exemption: holds in the faithful configuration (CaptureWaits) -- and must FAIL with
+\* CaptureWaits = FALSE (the gap the repair 1e83c14 closed; the check runs that configuration as a canary)
+Inv_NoAckedLossStrict ==
+  (wclosed /\ apc = "idle") => \A c \in Clients : Recover(snap, file)[c] >= ackpre[c]
+
 \* at every instant (not only after Close): every acknowledged version is in the log, the snapshot or in flight
 \* -- unless the gap deviation was exercised
 Covered(c) == \/ acked[c] = 0
